@@ -37,6 +37,11 @@ def run_case(case):
     labels = [spec["kind"]]
     want, detail = ref_terms(spec)
     total, terms = _evaluate(spec)
+    # loss(params, batch) is the same thing as loss.evaluate(params, batch)
+    loss_, params_, batch_ = build_single(spec)
+    t2, terms2 = loss_(params_, batch_)
+    if float(t2) != total or any(float(np.asarray(terms2[k])) != float(terms[k]) for k in terms):
+        return fail("call-differs-from-evaluate", {"call": float(t2), "evaluate": total}, labels=labels)
     for k, v in terms.items():
         if v.shape != ():
             return fail(f"term-not-scalar:{k}", {"shape": list(v.shape)}, labels=labels)
